@@ -311,69 +311,37 @@ func checkPrecedence(c *report.Ctx, keys map[string]map[string]bool) {
 			ok = ok && len(ex) == 1 && ex[0].Vals[0] == ssa.Value(excl[0].Value())
 		}
 		c.Check("R-ORDER", an.FuncName(f)+"/layers", "extensions get customer, credential and platform variables only (customer first, so reserved values win; no runtime-only or internal layer), filtered through mapExclude", ok, fpos(f), len(args), "union arguments: %v", args)
-		// the predicate
+		// the predicate, decided per class of names (decide.go): it holds for every name starting with '_', for none
+		// of the other names except the ones it lists, and lets no listed '_' name through
 		if len(excl) == 1 {
 			pred := closureOf(excl[0].Common().Args[1])
-			okP := pred != nil
-			detail := "predicate closure not found"
-			if okP {
-				var lk *ssa.Lookup
-				hp := an.CallsTo(pred, "strings.HasPrefix")
-				ncalls := 0
-				an.AllInstrs(pred, func(in ssa.Instruction) {
-					if l, k := in.(*ssa.Lookup); k {
-						lk = l
-					}
-					if _, k := in.(ssa.CallInstruction); k {
-						ncalls++
-					}
-				})
-				okHP := len(hp) == 1 && ncalls == 1
-				if okHP {
-					_, isP := hp[0].Common().Args[0].(*ssa.Parameter)
-					s, isC := an.ConstString(hp[0].Common().Args[1])
-					okHP = isP && isC && s == "_"
-				}
-				okLk := lk != nil
-				if okLk {
-					_, isP := lk.Index.(*ssa.Parameter)
-					okLk = isP && freeVarBinding(pred, lk.X) != nil
-				}
-				// result is lookup || hasPrefix
-				okOr := false
-				ex := an.Exits(pred)
-				if len(ex) == 1 {
-					if ph, k := ex[0].Vals[0].(*ssa.Phi); k && len(ph.Edges) == 2 {
-						t, f2 := false, false
-						for _, e := range ph.Edges {
-							if b, k := an.ConstBool(e); k && b {
-								t = true
-							}
-							if len(hp) == 1 && e == ssa.Value(hp[0].Value()) {
-								f2 = true
-							}
-						}
-						okOr = t && f2
+			sp, decided := decideStringPred(pred)
+			okP := decided && sp.Prefix["_"] && !sp.Other
+			var leaks []string
+			if decided {
+				for p, holds := range sp.Prefix {
+					if p != "_" && holds && !strings.HasPrefix(p, "_") {
+						okP = false
+						leaks = append(leaks, "withholds every name starting with "+p)
 					}
 				}
-				okP = okHP && okLk && okOr
-				detail = sprintf("excludedKeys[key]: %v; strings.HasPrefix(key, \"_\") and no other call: %v; combined with ||: %v", okLk, okHP, okOr)
-				// the captured table is extensionExcludedKeys()
-				if okP {
-					b := freeVarBinding(pred, lk.X)
-					okT := false
-					if al, k := b.(*ssa.Alloc); k {
-						for _, ref := range *al.Referrers() {
-							if st, k := ref.(*ssa.Store); k && an.IsResultOf(st.Val, "L/rapidcore/env.extensionExcludedKeys", -1) {
-								okT = true
-							}
-						}
+				for _, k := range sp.FalseFor {
+					if strings.HasPrefix(k, "_") {
+						okP = false
+						leaks = append(leaks, "lets "+k+" through")
 					}
-					okP = okT
-					detail += sprintf("; table is extensionExcludedKeys(): %v", okT)
 				}
 			}
-			c.Check("R-SHAPE", an.FuncName(f)+"/filter-predicate", "an extension never sees a listed exclusion nor any name starting with '_': the filter predicate is exactly 'excluded[key] || HasPrefix(key, \"_\")'", okP, fpos(f), 3, "%s", detail)
+			detail := "predicate not found or not decided (depends on more than comparisons, constant tables and constant prefixes of the name)"
+			if decided {
+				detail = sprintf("holds for listed names %v; for '_' names: %v; for any other name: %v; %v", sp.TrueFor, sp.Prefix["_"], sp.Other, leaks)
+			}
+			c.Check("R-SHAPE", an.FuncName(f)+"/filter-predicate", "an extension never sees a listed exclusion nor any name starting with '_', and sees every other name: the filter predicate holds exactly for the listed names and the '_' names", okP, fpos(f), 3, "%s", detail)
+			var ks []string
+			if decided {
+				ks = sp.TrueFor
+			}
+			c.Check("R-CONST", "L/rapidcore/env.extensionExcludedKeys/xray-exclusions", "the X-Ray exclusions are among the names the extension filter withholds", oneOf("AWS_XRAY_CONTEXT_MISSING", ks...) && oneOf("_AWS_XRAY_DAEMON_ADDRESS", ks...) && oneOf("_AWS_XRAY_DAEMON_PORT", ks...), fpos(f), len(ks), "%v", ks)
 		}
 	}
 	if f := fn(c, "L/rapidcore/env", "mapExclude"); f != nil {
@@ -401,20 +369,6 @@ func checkPrecedence(c *report.Ctx, keys map[string]map[string]bool) {
 			ok = g && k1 && k2 && kx.Tuple == vx.Tuple
 		}
 		c.Check("R-SHAPE", an.FuncName(f)+"/copies-exactly-the-kept-entries", "filtering keeps exactly the entries for which the predicate is false, unchanged", ok, fpos(f), 1, "%v", ok)
-	}
-	if f := fn(c, "L/rapidcore/env", "extensionExcludedKeys"); f != nil {
-		var ks []string
-		an.AllInstrs(f, func(in ssa.Instruction) {
-			if mu, k := in.(*ssa.MapUpdate); k {
-				if s, k2 := an.ConstString(mu.Key); k2 {
-					if b, k3 := an.ConstBool(mu.Value); k3 && b {
-						ks = append(ks, s)
-					}
-				}
-			}
-		})
-		sort.Strings(ks)
-		c.Check("R-CONST", an.FuncName(f)+"/xray-exclusions", "the X-Ray exclusions are in the extension filter's table", oneOf("AWS_XRAY_CONTEXT_MISSING", ks...) && oneOf("_AWS_XRAY_DAEMON_ADDRESS", ks...) && oneOf("_AWS_XRAY_DAEMON_PORT", ks...), fpos(f), len(ks), "%v", ks)
 	}
 	// credentials stored unconditionally
 	for _, spec := range []struct {
